@@ -268,6 +268,11 @@ def getattr(I, st, v, name):
         if name == "is_integer" and not is_z3(v):
             yield st, simple("is_integer", lambda I, st: Fraction(v).denominator == 1)
             return
+    if type(v).__name__ == "DtypeVal":
+        if name == "kind":
+            yield st, v.kind
+            return
+        raise Unsupported("dtype attribute " + name)
     if v is None:
         if name == "__class__":  # None.__class__ is type(None)
             yield st, BuiltinClass("NoneType", type(None))
@@ -887,6 +892,10 @@ def call_builtin_class(I, st, c, args, kwargs):
         yield st, type_of(I, st, args[0])
     elif n == "range":
         yield st, make_range(I, st, args)
+    elif n == "ndarray":
+        from . import npmodel
+
+        yield from npmodel.ndarray_new(I, st, args, kwargs)
     else:
         raise Unsupported("call of builtin class " + n)
 
